@@ -15,8 +15,11 @@ def body(c):
         return
     netparams.export_table(c)      # TLC: legality closure, counts, ...
     netdata.mc(c, c.tier)          # TLC: ConvertRules, to-Zin is fresh, ...
-    issues, stats = netdata.run(c, exe, c.tier, c.seed, modes=("conv",),
-                                family_prop="C05")
+    # table-driven conversions, plus random histories (arbitrary values,
+    # shapes and mode switches around the conversions)
+    issues, stats = netdata.run(c, exe, c.tier, c.seed,
+                                modes=("conv", "rand"), family_prop="C05",
+                                rand_cases=(96 if c.tier == "quick" else 3000))
     for it in issues:
         c.issue(it)
     c.add_part("netdata_conv_traces", stats)
@@ -32,13 +35,15 @@ def body(c):
         "{ordinary, per-frequency z0} x {in place, into a second object "
         "holding unrelated content} x {0, 1, 3 frequencies} = %d episodes per "
         "round (%d round(s)), each followed by a random tail of resize / "
-        "convert calls; every call is validated against NetDataTrace, Convert "
+        "convert calls, plus %d random histories of %d calls; every call is "
+        "validated against NetDataTrace, Convert "
         "events carry matchesDirectCall (vnaconv function named by the type "
         "letters, applied per frequency with that frequency's z0), "
         "in-place == out-of-place, relation and chain observations.  "
         "evaluations = Convert events; distinct_nontrivial = distinct "
         "episodes containing a Convert."
-        % (stats.get("conv0_cases", 0), stats.get("conv_rounds", 0)))
+        % (stats.get("conv0_cases", 0), stats.get("conv_rounds", 0),
+           stats.get("rand_cases", 0), stats.get("rand_len", 0)))
     c.cov["trusted_base"] = [
         "TLC 1.8", "NetParams.tla / NetData.tla", "harness/convreg.h name -> "
         "symbol table", "harness/relcheck.c (relation checker)",
